@@ -94,9 +94,13 @@ func runHarness(e *RunEnv, name string, extraArgs []string, onCrash func(shard i
 					vs = append(vs, v)
 				}
 			}
-			if !gotSummary {
+			if !gotSummary && ctx.Err() != nil {
+				// stopped by this driver's own deadline: the enumeration is incomplete, nothing is known about the case in progress
+				sum.Exhaustive = false
+				sum.Extra["shards_stopped_at_deadline"]++
+			} else if !gotSummary {
 				j, _ := os.ReadFile(filepath.Join(wd, "journal"))
-				if v := onCrash(sh, string(j), trunc(se.String(), 2000)); v != nil {
+				if v := onCrash(sh, string(j), fmt.Sprintf("[%v] ", runErr)+trunc(se.String(), 2000)); v != nil {
 					vs = append(vs, *v)
 				} else {
 					mu.Unlock()
